@@ -29,6 +29,8 @@ struct tres { uint64_t h; int descs[4]; int ndesc; int bad; char what[96]; };
 static struct tres RES[SCHED_MAXT];
 static int shared_desc, doomed_desc;
 
+#define RS_ EC_BACKEND_LIBERASURECODE_RS_VAND
+#define XR_ EC_BACKEND_FLAT_XOR_HD
 static uint64_t mix(uint64_t h, const void *p, size_t n) { return h * 1099511628211ull ^ vh_hash(p, n); }
 static int mk(int be, int k, int m, int hd)
 {
@@ -58,6 +60,85 @@ static void use(struct tres *r, int desc, int k, int m, int wbytes, int strict)
     int fs = liberasurecode_get_fragment_size(desc, 100); r->h = mix(r->h, &fs, sizeof fs);
     liberasurecode_encode_cleanup(desc, ed, ep);
 }
+/* the whole data plane on an instance that already exists: encode, decode from several erasure sets (fast path, one and
+ * several data fragments missing, parity missing, unaligned and duplicated inputs, forced checks), reconstruct data and parity,
+ * fragments_needed, metadata query (native and opposite-endian header), validation, stripe verification; everything hashed.
+ * Threads running this on instances created before they started take only read locks, so no real synchronisation orders
+ * them and ThreadSanitizer reports any state the data plane shares between calls. */
+static void use_full(struct tres *r, int desc, int be, int k, int m, int hd, int wbytes)
+{
+    uint8_t data[256]; size_t len = (size_t)(2 * k * wbytes + 3); vh_fill(data, len, PAT_RAMP);
+    char **ed = NULL, **ep = NULL; uint64_t fl = 0;
+    int tol = be == XR_ ? hd - 1 : m;
+    int rc = liberasurecode_encode(desc, (char *)data, len, &ed, &ep, &fl);
+    r->h = mix(r->h, &rc, sizeof rc);
+    if (rc) { r->bad = 1; snprintf(r->what, sizeof r->what, "encode returned %d", rc); return; }
+    int n = k + m; char *F[32]; for (int i = 0; i < n; i++) { F[i] = i < k ? ed[i] : ep[i - k]; r->h = mix(r->h, F[i], fl); }
+    /* bit 31 stands for the first parity, bit 30 for the second; 0x7 on flat_xor_hd (6,6,4) is the one pattern that needs the
+     * "P xor Q" scratch path of decode_three_data, 0xb takes its direct path */
+    static const unsigned ES[] = { 0x0, 0x1, 0x3, 0x7, 0x2 | 1u << 31, 1u << 31, 0x5, 0xb, 0x1 | 3u << 30 };
+    char *un[32]; for (int i = 0; i < n; i++) { un[i] = malloc(fl + 1); memcpy(un[i] + 1, F[i], fl); }
+    for (unsigned e = 0; e < sizeof ES / sizeof ES[0]; e++) {
+        unsigned E = (ES[e] & 0x3fffffffu) | ((ES[e] >> 31) << k) | ((ES[e] >> 30 & 1) << (k + 1));
+        if (__builtin_popcount(E) > tol || (E >> n)) continue;
+        char *lst[40]; int nf = 0; for (int i = 0; i < n; i++) if (!(E >> i & 1)) lst[nf++] = (e & 1) ? un[i] + 1 : F[i];
+        if (e == 2 && nf) lst[nf++] = lst[0];
+        char *out = NULL; uint64_t ol = 0;
+        rc = liberasurecode_decode(desc, lst, nf, fl, e == 3 || e == 5, &out, &ol);
+        r->h = mix(r->h, &rc, sizeof rc);
+        if (rc == 0) { r->h = mix(r->h, out, ol); if (ol != len || memcmp(out, data, len)) { r->bad = 1; snprintf(r->what, sizeof r->what, "decode E=0x%x returned wrong data", E); } liberasurecode_decode_cleanup(desc, out); }
+        else { r->bad = 1; snprintf(r->what, sizeof r->what, "decode E=0x%x returned %d", E, rc); }
+        for (int t = 0; t < 2; t++) {
+            int dest = t ? k : 0; char *ob = malloc(fl);
+            rc = liberasurecode_reconstruct_fragment(desc, lst, nf, fl, dest, ob);
+            r->h = mix(r->h, &rc, sizeof rc);
+            if (rc == 0) { r->h = mix(r->h, ob, fl); if (memcmp(ob, F[dest], fl)) { r->bad = 1; snprintf(r->what, sizeof r->what, "reconstruct E=0x%x dest=%d returned wrong bytes", E, dest); } }
+            else { r->bad = 1; snprintf(r->what, sizeof r->what, "reconstruct E=0x%x dest=%d returned %d", E, dest, rc); }
+            free(ob);
+        }
+    }
+    /* fragments_needed: every request over the first two data and the first parity, within tolerance */
+    for (int R = 1; R < 8; R++) for (int X = 0; X < 8; X++) {
+        if ((R & X) || __builtin_popcount((unsigned)(R | X)) > tol) continue;
+        int rl[4], xl[4], nr = 0, nx = 0, N[40];
+        for (int b = 0; b < 3; b++) { int idx = b == 2 ? k : b; if (idx >= n || (b == 1 && k < 2)) continue; if (R >> b & 1) rl[nr++] = idx; if (X >> b & 1) xl[nx++] = idx; }
+        if (!nr) continue;
+        rl[nr] = -1; xl[nx] = -1; memset(N, 0xff, sizeof N);
+        rc = liberasurecode_fragments_needed(desc, rl, xl, N);
+        r->h = mix(r->h, &rc, sizeof rc);
+        if (rc == 0) { int c = 0; while (c < 39 && N[c] >= 0) c++; r->h = mix(r->h, N, sizeof(int) * (size_t)c); }
+        else { r->bad = 1; snprintf(r->what, sizeof r->what, "fragments_needed R=%d X=%d returned %d", R, X, rc); }
+    }
+    /* metadata: native header, opposite-endian twin, damaged payload */
+    for (int i = 0; i < n; i += (n > 4 ? n - 1 : 1)) {
+        fragment_metadata_t md; memset(&md, 0, sizeof md);
+        rc = liberasurecode_get_fragment_metadata(F[i], &md); r->h = mix(r->h, &rc, sizeof rc); r->h = mix(r->h, &md, sizeof md);
+        if (rc || (int)md.idx != i || md.orig_data_size != len) { r->bad = 1; snprintf(r->what, sizeof r->what, "metadata of fragment %d: rc=%d idx=%u orig=%lu", i, rc, md.idx, (unsigned long)md.orig_data_size); }
+        uint8_t *tw = malloc(fl); memcpy(tw, F[i], fl); wire_byteswap_twin(tw);
+        memset(&md, 0, sizeof md);
+        rc = liberasurecode_get_fragment_metadata((char *)tw, &md); r->h = mix(r->h, &rc, sizeof rc); r->h = mix(r->h, &md, sizeof md);
+        if (rc || (int)md.idx != i || md.orig_data_size != len || md.chksum_mismatch) { r->bad = 1; snprintf(r->what, sizeof r->what, "metadata of the opposite-endian twin of fragment %d: rc=%d idx=%u orig=%lu mismatch=%d", i, rc, md.idx, (unsigned long)md.orig_data_size, md.chksum_mismatch); }
+        memcpy(tw, F[i], fl); if (fl > 80) { tw[80] ^= 1; memset(&md, 0, sizeof md); rc = liberasurecode_get_fragment_metadata((char *)tw, &md); r->h = mix(r->h, &md, sizeof md);
+            if (rc || !md.chksum_mismatch) { r->bad = 1; snprintf(r->what, sizeof r->what, "damaged payload of fragment %d not flagged (rc=%d mismatch=%d)", i, rc, md.chksum_mismatch); } }
+        int iv = is_invalid_fragment(desc, F[i]); r->h = mix(r->h, &iv, sizeof iv);
+        if (iv) { r->bad = 1; snprintf(r->what, sizeof r->what, "fresh fragment %d reported invalid", i); }
+        free(tw);
+    }
+    rc = liberasurecode_verify_stripe_metadata(desc, F, n); r->h = mix(r->h, &rc, sizeof rc);
+    if (rc) { r->bad = 1; snprintf(r->what, sizeof r->what, "verify_stripe_metadata on a fresh stripe returned %d", rc); }
+    int q[3] = { liberasurecode_get_fragment_size(desc, 100), liberasurecode_get_aligned_data_size(desc, 100), liberasurecode_get_minimum_encode_size(desc) };
+    r->h = mix(r->h, q, sizeof q);
+    for (int i = 0; i < n; i++) free(un[i]);
+    liberasurecode_encode_cleanup(desc, ed, ep);
+}
+static int pre_desc[2];
+static void b_use_rs0(struct tres *r) { use_full(r, pre_desc[0], RS_, 3, 3, 3, 2); }
+static void b_use_rs1(struct tres *r) { use_full(r, pre_desc[1], RS_, 3, 3, 3, 2); }
+static void b_use_xor0(struct tres *r) { use_full(r, pre_desc[0], XR_, 6, 6, 4, 4); }
+static void b_use_xor1(struct tres *r) { use_full(r, pre_desc[1], XR_, 6, 6, 4, 4); }
+static void b_use_isa0(struct tres *r) { use_full(r, pre_desc[0], EC_BACKEND_ISA_L_RS_VAND, 3, 3, 3, 1); }
+static void b_use_isa1(struct tres *r) { use_full(r, pre_desc[1], EC_BACKEND_ISA_L_RS_VAND, 3, 3, 3, 1); }
+static void b_use_cau0(struct tres *r) { use_full(r, pre_desc[0], EC_BACKEND_ISA_L_RS_CAUCHY, 3, 3, 3, 1); }
 static void own_cycle(struct tres *r, int be, int k, int m, int hd, int wbytes)
 {
     int d = mk(be, k, m, hd);
@@ -82,7 +163,8 @@ static void b_create_only(struct tres *r)
     r->descs[r->ndesc++] = d; use(r, d, 2, 1, 2, 1);
 }
 
-struct driver { const char *name; int nthreads; void (*body[SCHED_MAXT])(struct tres *); int pre_shared, pre_doomed, post_destroy_kept; };
+struct driver { const char *name; int nthreads; void (*body[SCHED_MAXT])(struct tres *); int pre_shared, pre_doomed, post_destroy_kept;
+                int pre_be, pre_k, pre_m, pre_hd, pre_two; };   /* pre_be != 0: main creates one (pre_two: two) instance(s) of that shape before the threads start and destroys them after the join */
 static const struct driver DRV[] = {
     { "W1", 2, { b_rs_cycle, b_rs_cycle }, 0, 0, 0 },
     { "W2", 2, { b_shared_user, b_xor_cycle }, 1, 0, 0 },
@@ -94,6 +176,15 @@ static const struct driver DRV[] = {
     { "W3", 3, { b_rs_cycle, b_xor_cycle, b_null_cycle }, 0, 0, 0 },
     { "W2+", 3, { b_shared_user, b_shared_user, b_xor_cycle }, 1, 0, 0 },
     { "W1x3", 3, { b_rs_cycle, b_rs_cycle, b_rs_cycle }, 0, 0, 0 },
+    /* data plane only, on instances that exist before the threads start (index 10..): same descriptor / one descriptor each */
+    { "Urs", 2, { b_use_rs0, b_use_rs0 }, 0, 0, 0, RS_, 3, 3, 3, 0 },
+    { "Uxor", 2, { b_use_xor0, b_use_xor0 }, 0, 0, 0, XR_, 6, 6, 4, 0 },
+    { "Uisa", 2, { b_use_isa0, b_use_isa0 }, 0, 0, 0, EC_BACKEND_ISA_L_RS_VAND, 3, 3, 3, 0 },
+    { "Urs2", 2, { b_use_rs0, b_use_rs1 }, 0, 0, 0, RS_, 3, 3, 3, 1 },
+    { "Uxor2", 2, { b_use_xor0, b_use_xor1 }, 0, 0, 0, XR_, 6, 6, 4, 1 },
+    { "Uisa2", 2, { b_use_isa0, b_use_isa1 }, 0, 0, 0, EC_BACKEND_ISA_L_RS_VAND, 3, 3, 3, 1 },
+    { "Ucau", 2, { b_use_cau0, b_use_cau0 }, 0, 0, 0, EC_BACKEND_ISA_L_RS_CAUCHY, 3, 3, 3, 0 },
+    { "Urs+cycle", 2, { b_use_rs0, b_rs_cycle }, 0, 0, 0, RS_, 3, 3, 3, 0 },
 };
 #define NDRV ((int)(sizeof DRV / sizeof DRV[0]))
 
@@ -114,6 +205,7 @@ static void run_once(const struct driver *d, struct sched_trace *tr, const unsig
     memset(RES, 0, sizeof RES);
     if (d->pre_shared) shared_desc = mk(RS, 2, 1, 1);
     if (d->pre_doomed) doomed_desc = mk(RS, 2, 1, 1);
+    if (d->pre_be) for (int i = 0; i <= d->pre_two; i++) { pre_desc[i] = mk(d->pre_be, d->pre_k, d->pre_m, d->pre_hd); if (pre_desc[i] <= 0) { fprintf(stderr, "driver %s: cannot create its instance\n", d->name); _exit(2); } }
     sched_init(tr, prefix, nprefix, d->nthreads);
     pthread_t th[SCHED_MAXT]; struct targ ta[SCHED_MAXT];
     for (int i = 0; i < d->nthreads; i++) { ta[i].d = d; ta[i].tid = i; RES[i].h = 1469598103934665603ull; pthread_create(&th[i], NULL, thread_main, &ta[i]); }
@@ -129,6 +221,7 @@ static void run_once(const struct driver *d, struct sched_trace *tr, const unsig
     }
     if (d->post_destroy_kept) for (int i = 0; i < d->nthreads; i++) for (int j = 0; j < RES[i].ndesc; j++) { int rc = liberasurecode_instance_destroy(RES[i].descs[j]); if (rc) vh_violation("result-differs-from-sequential", "destroy of descriptor %d after the join returned %d", RES[i].descs[j], rc); }
     if (d->pre_shared) { struct tres r; memset(&r, 0, sizeof r); use(&r, shared_desc, 2, 1, 2, 1); if (r.bad) vh_violation("result-differs-from-sequential", "shared instance after the join: %s", r.what); liberasurecode_instance_destroy(shared_desc); }
+    if (d->pre_be) for (int i = 0; i <= d->pre_two; i++) { int rc = liberasurecode_instance_destroy(pre_desc[i]); if (rc) vh_violation("result-differs-from-sequential", "destroy of the pre-created instance after the join returned %d", rc); }
     if (active_instances.slh_first) vh_violation("registry-not-empty", "registry not empty after every instance was destroyed");
     if (log_table) vh_violation("tables-not-released", "GF tables still allocated after the last instance was destroyed");
     if (ledger_count() != c0 || ledger_bytes() != b0) { char dd[160]; ledger_dump(dd, sizeof dd); vh_violation("leak", "%ld blocks / %ld bytes still allocated at the end (live sizes %s)", ledger_count() - c0, ledger_bytes() - b0, dd); }
@@ -263,7 +356,9 @@ static void engine(void)
         vh_group_end();
         return;
     }
-    for (int di = 0; di < ndrv && di < NDRV; di++) {
+    long drvmask = vh_opt("drvmask", 0);          /* bit i selects DRV[i]; 0: the first `drivers` entries */
+    for (int di = 0; di < NDRV; di++) {
+        if (drvmask ? !(drvmask >> di & 1) : di >= ndrv) continue;
         CUR = &DRV[di]; BOUND = CUR->nthreads > 2 ? bound3 : (int)vh_opt("bound", 2);
         vh_op(CUR->name);
         violating_execs = 0; have_golden = 0;
